@@ -93,10 +93,20 @@ def handle (op : String) (j : Json) : Option (Except String Json) :=
         | Json.str s => pure s
         | _ => .error "op must be a string"
       let ops ← names.mapM fun s => do pure (s, ← opOf s)
-      let dd := (buildDict strings).1
+      -- `dicts` (lists of definition strings, each built separately, then merged through the dict path)
+      -- takes precedence over `defs`
+      let dd ← match j.getObjVal? "dicts" with
+        | .ok (Json.arr a) => do
+            let ds ← a.toList.mapM fun d => do pure (buildDict (← (← asArr d).mapM kidsOf)).1
+            pure (mergeDicts ds).1
+        | _ => pure (buildDict strings).1
       let o : Obj := { kids := kids }
       pure <| jobj [("start", jstr (strL kids)),
                     ("steps", jarr (runSteps (getBoolD j "fix" true) (getBoolD j "sorted" true) (getBoolD j "copytag" true) dd o ops))]
+  | "c09.merge" => some do
+      let ds ← (← getArr j "dicts").mapM fun d => do pure (buildDict (← (← asArr d).mapM kidsOf)).1
+      let r := mergeDicts ds
+      pure <| jobj [("defs", jarr (r.1.map entryJson)), ("issues", jnat r.2.length)]
   | "c09.gather" => some do
       -- known definitions (strings), then the cells; answer: final dictionary, errors, number of ambiguous pairs
       let strings ← (← getArr j "defs").mapM kidsOf
